@@ -522,7 +522,7 @@ fn vm_io(i: &Input) -> String {
         for (j, b) in bytes(get(i, &format!("contract{k}"))).into_iter().enumerate().take(32) { c[j] = b; }
         for (j, b) in bytes(get(i, &format!("predicate{k}"))).into_iter().enumerate().take(32) { p[j] = b; }
         let data = if get(i, &format!("sol{k}")) == "none" { vec![] } else {
-            get(i, &format!("sol{k}")).split('|').filter(|x| *x != "-").map(words).collect::<Vec<_>>() };
+            get(i, &format!("sol{k}")).split('|').filter(|x| *x != "-").map(|x| if x.trim() == "e" { vec![] } else { words(x) }).collect::<Vec<_>>() };
         sols.push(Solution { predicate_to_solve: PredicateAddress { contract: ContentAddress(c), predicate: ContentAddress(p) }, predicate_data: data, state_mutations: vec![] });
         k += 1;
     }
